@@ -530,8 +530,11 @@ def input_class(routine, A, kind, res=None):
             tn = sun_tail_norm(A)
             if tn < 1e-9:
                 return "zero-tail-column"
-            if tn < 3e-3:
+            if tn < 1.5e-2:
                 return "small-tail-column"
+        mod = np.abs(A)
+        if ((mod > 1e-12) & (mod < 1.5e-2)).any():
+            return "tiny-entries"
         if A.shape[0] >= 7:
             return "size-ge-7"
         if not (A == 0).any():
@@ -618,7 +621,7 @@ def bdiag(*blocks):
 NICE_ANGLES = [0.0, math.pi / 2, math.pi, -math.pi / 2, math.pi / 4, 0.3, 1.1, 2.5]
 
 UNITARY_KINDS = ["haar", "identity", "anti-identity", "permutation", "phase-permutation", "diagonal", "block", "embedded",
-                 "sparse", "dft", "real-orthogonal", "givens", "neg-identity", "special", "boundary-in"]
+                 "sparse", "dft", "real-orthogonal", "givens", "neg-identity", "special", "boundary-in", "tiny-rotation"]
 UNITARY_BAD = ["scaled", "random-complex", "non-square", "boundary-out", "nan", "row-isometry", "subunitary"]
 NONTRIVIAL_KINDS = None  # everything except the dense generic kinds, see is_nontrivial
 
@@ -669,6 +672,15 @@ def gen_unitary(rs, kind, n):
             i, j = sorted(rs.choice(n, 2, replace=False))
             t = rs.uniform(0, 2 * np.pi)
             U[i, i] = np.cos(t); U[j, j] = np.cos(t); U[i, j] = -np.sin(t); U[j, i] = np.sin(t)
+        return U
+    if kind == "tiny-rotation":
+        U = np.eye(n, dtype=complex)
+        if n >= 2:
+            i, j = sorted(rs.choice(n, 2, replace=False))
+            t = 10.0 ** rs.uniform(-9, -2)
+            U[i, i] = np.cos(t); U[j, j] = np.cos(t); U[i, j] = -np.sin(t); U[j, i] = np.sin(t)
+        if rs.rand() < 0.5:
+            U = U * np.exp(1j * rs.uniform(-3, 3, n))
         return U
     if kind == "special":
         U = haar(n, rs)
